@@ -15,7 +15,7 @@ from .simsched import Scheduler, SimQueue, SimEvent, SimLock, SharedFlag, fork_c
 class Cfg:
     def __init__(self, n_workers=2, work_cap="default", res_cap=None, factory=False, quota=None, wait_ready=False,
                  calls=((3, 1, True),), begin_fault=(), item_fault=(), ready_mid=False, none_inputs=False,
-                 body_raises=False, impatient=False, input_kind=0):
+                 body_raises=False, impatient=False, input_kind=0, fault_exc="RuntimeError"):
         """calls: (number of items, chunk_size, ordered)"""
         self.n_workers = n_workers
         self.work_cap = work_cap  # "default" (1.0) | None | int | float
@@ -38,6 +38,9 @@ class Cfg:
         self.impatient = impatient
         # how the input is handed over, rotating per call: generator (lazily produced), list, tuple, one-shot iterator, range-like
         self.input_kind = input_kind
+        # what an injected fault raises: an ordinary exception, or one that is not derived from Exception (sys.exit() inside
+        # the functor, Ctrl-C) — end() runs once in every case
+        self.fault_exc = fault_exc
 
     @property
     def oracle_only(self):
@@ -62,7 +65,8 @@ class Cfg:
         return dict(n_workers=self.n_workers, work_cap=self.work_cap, res_cap=self.res_cap, factory=self.factory,
                     quota=self.quota, wait_ready=self.wait_ready, calls=self.calls, begin_fault=self.begin_fault,
                     item_fault=self.item_fault, ready_mid=self.ready_mid, none_inputs=self.none_inputs,
-                    body_raises=self.body_raises, impatient=self.impatient, input_kind=self.input_kind)
+                    body_raises=self.body_raises, impatient=self.impatient, input_kind=self.input_kind,
+                    fault_exc=self.fault_exc)
 
 
 class SimEnv:
@@ -190,7 +194,7 @@ class SimEnv:
             def begin(self):
                 env.logs.setdefault(self.wid, []).append("b")
                 if self.wid in env.cfg.begin_fault:
-                    raise RuntimeError("begin failed")
+                    raise FAULTS[env.cfg.fault_exc]("begin failed")
 
             def end(self):
                 env.logs.setdefault(self.wid, []).append("e")
@@ -229,7 +233,7 @@ class SimEnv:
                         env.logs.setdefault(me.wid, []).append(f"i{item[0]}")
                         if (me.wid, me._chunk_no) in env.cfg.item_fault:
                             me._chunk_no += 1
-                            item = (item[0], [FaultItem()] * max(1, len(item[1])))
+                            item = (item[0], [FaultItem(env.cfg.fault_exc)] * max(1, len(item[1])))
                         else:
                             me._chunk_no += 1
                     return item
@@ -295,8 +299,10 @@ class SimEnv:
             for n, cs, ordered in self.cfg.calls:
                 base = len(self.results) * 1000
                 data = (core.pool_input(base // 1000, i, self.cfg.none_inputs) for i in range(n))  # a lazily produced input
-                kind = (self.cfg.input_kind + len(self.results)) % 4
-                if kind == 1:
+                kind = (self.cfg.input_kind + len(self.results)) % 5
+                if kind == 4:
+                    data = SizedWrapper(list(data), 1 if n % 2 else -1)  # an iterable whose len() is only an estimate
+                elif kind == 1:
                     data = list(data)  # a sized input
                 elif kind == 2:
                     data = tuple(data)
@@ -376,13 +382,34 @@ class SimEnv:
         return exp
 
 
+class SizedWrapper:
+    """an iterable with a `len()` that is not the number of items it yields (a progress-bar wrapper with an estimated total,
+    a collection that changes): what counts for a map over an iterable is what iteration yields"""
+
+    def __init__(self, items, delta):
+        self.items = items
+        self.delta = delta
+
+    def __iter__(self):
+        return iter(self.items)
+
+    def __len__(self):
+        return max(0, len(self.items) + self.delta)
+
+
 class BodyRaised(Exception):
     pass
 
 
+FAULTS = {"RuntimeError": RuntimeError, "SystemExit": SystemExit, "KeyboardInterrupt": KeyboardInterrupt}
+
+
 class FaultItem:
+    def __init__(self, exc="RuntimeError"):
+        self.exc = exc
+
     def __mul__(self, other):
-        raise RuntimeError("functor failed")
+        raise FAULTS[self.exc]("functor failed")
 
 
 class QueueView:
